@@ -41,13 +41,31 @@ Proof.
     rewrite E. unfold has_nz. rewrite H. apply orb_true_r.
 Qed.
 
+(* the refusal is monotone in the flags: the O_DIRECTORY a trailing slash adds cannot hide a creation flag *)
+Lemma follow_refused_lor fl x : follow_refused fl = true -> follow_refused (N.lor fl x) = true.
+Proof.
+  unfold follow_refused, intersects, has_nz, has. intro H. apply orb_true_iff in H. apply orb_true_iff.
+  destruct H as [H|H]; [left|right].
+  - apply negb_true_iff, N.eqb_neq in H. apply negb_true_iff, N.eqb_neq. intro E. apply H.
+    rewrite N.land_lor_distr_l in E. apply N.lor_eq_0_l in E. exact E.
+  - apply andb_true_iff in H. destruct H as [Hn H]. apply andb_true_iff. split; [exact Hn|].
+    apply N.eqb_eq in H. apply N.eqb_eq. rewrite N.land_lor_distr_l, H.
+    apply N.bits_inj. intro n. rewrite N.lor_spec, N.land_spec. destruct (N.testbit OPEN_FOLLOW_REFUSED_CONTAINS n), (N.testbit x n); reflexivity.
+Qed.
+
 Lemma presolve_refuses fz cfg use root p fl rf :
   creation_flags fl -> presolve fz cfg use root p fl rf = Ret (Err InvalidArgument).
 Proof. intro H. unfold presolve. rewrite (creation_invalid fl H). reflexivity. Qed.
 
 Lemma popen_follow_refuses fz cfg fuel h base sub fl :
   creation_flags fl -> popen_follow fz cfg fuel h base sub fl = Ret (Err InvalidArgument).
-Proof. intro H. unfold popen_follow. rewrite (creation_follow_refused fl H). reflexivity. Qed.
+Proof.
+  intro H. pose proof (creation_follow_refused fl H) as R. fold (follow_refused fl) in R. unfold popen_follow.
+  destruct OPEN_FOLLOW_REFUSAL_AFTER_SLASH; cbn [negb andb].
+  - destruct (path_strip_trailing_slash sub) as [sub' ts].
+    destruct ts; [rewrite (follow_refused_lor _ _ R)|rewrite R]; reflexivity.
+  - rewrite R. reflexivity.
+Qed.
 
 (* ProcfsHandle::open with creation flags never succeeds (the base directory is
    opened first; the lookup itself is refused without a system call) *)
@@ -265,11 +283,13 @@ Theorem popen_follow_dominated fz cfg fuel h0 base sub fl h :
   spec follow_ok TrueQ h (popen_follow fz cfg fuel h0 base sub fl).
 Proof.
   intro Hh. unfold popen_follow.
-  destruct (_ || _); [constructor; exact I|].
+  destruct (negb _ && _); [constructor; exact I|].
   destruct (path_strip_trailing_slash sub) as [sub' ts].
+  destruct (OPEN_FOLLOW_REFUSAL_AFTER_SLASH && _); [constructor; exact I|].
   eapply spec_bind; [apply nf_spec, preadlink_ok; exact Hh|]. intros rl h1 _.
   destruct rl as [bs|e].
-  2: { eapply spec_weaken; [apply nf_spec, popen_ok; exact Hh|]. intros; exact I. }
+  2: { destruct (_ && negb _); [constructor; exact I|].
+       eapply spec_weaken; [apply nf_spec, popen_ok; exact Hh|]. intros; exact I. }
   destruct (path_split sub') as [[[parent [trailing|]]|e]|] eqn:Hsp; try (constructor; exact I).
   unfold bindR. eapply spec_bind; [apply nf_spec, popen_ok; exact Hh|]. intros r h2 Hp.
   destruct r as [pfd|e]; [|constructor; exact I]. cbn in Hp.
